@@ -5,3 +5,8 @@ import QlibcModel.Props.C17
 #print axioms Qlibc.Props.C17.parseQueries_safe
 #print axioms Qlibc.Props.C17.makeword_safe
 #print axioms Qlibc.Props.C17.table_lengths
+#print axioms Qlibc.Props.C17Parsers.ini_markers
+#print axioms Qlibc.Props.C17Parsers.aconf_tokenize_safe
+#print axioms Qlibc.Props.C17Parsers.aconf_parse_total
+#print axioms Qlibc.Props.C17Parsers.iniExpand_terminates
+#print axioms Qlibc.Props.C17Parsers.iniParse_total
